@@ -14,6 +14,7 @@
  R5 design time    : set_roadm_per_degree_targets fills each per-degree table from the matching node-level field,
                      only for degrees configured in none of the three tables; presence of a numeric target is
                      tested with `is not None` everywhere (0 is a legal target).
+ Rm memo          : every memoisation construct in the functions behind this property is keyed by everything it reads.
 """
 import ast
 
@@ -342,4 +343,9 @@ def r6_stateless(ctx):
     ctx.need('R6.stateless', 1)
 
 
-RULES = [('R6.stateless', r6_stateless), ('R1.formula', r1_formula), ('R2.policy', r2_policy), ('R4.one-policy', r4_one_policy), ('R5.design', r5_design)]
+
+from ..memo import rule_for as _memo_rule
+
+RULES_MEMO = ('Rm.memo', _memo_rule('C06', 'the equalisation computed for another spectrum or target would be applied'))
+
+RULES = [('R6.stateless', r6_stateless), ('R1.formula', r1_formula), ('R2.policy', r2_policy), ('R4.one-policy', r4_one_policy), ('R5.design', r5_design), RULES_MEMO]
